@@ -45,6 +45,11 @@ CHECKS = {
         "Exploration: for every sentence (all token strings up to 4-5 tokens, rendered with generated layout before, between and after tokens; single-character, multi-character and overlapping lexicons; ws-based and comment LAYOUT grammars) every node of the LR build_tree result and of up to 40-200 forest trees + get_first_tree is checked: integer in-bounds positions, terminal value = input slice, ordered non-overlapping siblings, children inside parents, layout_content+value concatenation reproduces the input, and the positions seen by actions (on the fly and via call_actions) equal the tree's.",
         "Trusted: pv/ref_chart.py for sentence selection. Known finding D17 (GLR packed node keeps the span of its first alternative) relaxes only the three span-relation predicates on GLR trees and only when the disagreeing region consists of layout characters. LR and GLR placements of empty nodes are not compared with each other.",
         "DESIGN.md section 6/C08"),
+    "C11": (
+        "PBT over generated corruptions (junk insertion into every short token string, generated character strings) with default and two progress-guaranteeing custom recovery strategies; oracles: deterministic step budget, span discipline, derivation check of the recovered tree against the reference recogniser, per-character coverage",
+        "Exploration: for generated deterministic-class grammars (LR), arbitrary generated grammars (GLR), nullable-chain grammars and the prioritised expression grammar, every token string up to 3-4 tokens with one or two junk tokens inserted plus generated strings up to 14 characters is parsed with error_recovery=True, a skip-to-next-line strategy and an inject-one-expected-token-per-position strategy: parse must finish within the step budget with a result + parser.errors or a raised SyntaxError; spans must be in bounds, start<=end, ordered and disjoint; with the default strategy every returned tree (LR tree, first 30 forest trees) must be a derivation whose leaves are input slices in increasing order and, for LR, every non-layout character must lie in exactly one leaf or one span; sentences must give no error and the non-recovering parser's result.",
+        "Trusted: pv/ref_chart.py. LR is exercised on tables that are deterministic without strategies and on the statically prioritised expression grammar. Known finding D18 (GLR heads at different positions share one error span) is tolerated only for the ordering/overlap clause in parses where the strategy was observed to be invoked for one error on heads at different positions.",
+        "DESIGN.md section 6/C11"),
     "C12": (
         "model-based PBT over generated histories on one grammar directory (builds with varying options, edits, touches with a logical clock, pglr compile, cache deletion, truncation to generated byte prefixes, injected crashes during the cache write) compared with builds from pristine copies without cache; fault enumeration over byte prefixes of reference caches; save/load round-trip PBT",
         "Exploration: generated histories of 3-12 operations over a root grammar importing a second file (3 x 3 variants incl. conflicts and string-vs-regex lexical ambiguity); after every build the serialised table and the outcomes of 15 probe inputs must equal those of the same class/options built from a pristine copy of the current files with no cache - whether the cache is absent, fresh, older than any grammar file, truncated, or left by a crash after k bytes of the write (open() shadowed in parglare.tables.persist); every 13th (thorough: every) byte prefix of two reference caches is enumerated as on-disk state; round trip: load(save(t)) keeps serialised actions/gotos, finish flags, conflicts and dynamic marks and a second save is byte-identical.",
